@@ -143,7 +143,7 @@ def gen_trace(rng, numeric=True, profile="wiring", values=None, p_bad=0.06):
         if kind != "phase" and rng.random() < 0.12:         # values within 1e-10 of fully off / fully on
             x = rng.choice([1e-10, 1 - 1e-10, 3e-12, 1 - 3e-12, 5e-6, 1 - 5e-6, 2e-6, 3e-5])    # below and just above the 1e-9 probability threshold
         if kind == "phase" and rng.random() < 0.1:
-            x = rng.choice([-x, x + 2 * math.pi, 1e-12])
+            x = rng.choice([-x, x + 2 * math.pi, 1e-12, 1e9 + x, -3e8 - x, 5e7 + x])     # incl. angles many turns away from [0, 2 pi)
         values.append(x)
         return 2000 + len(values) - 1
 
